@@ -5,7 +5,8 @@
  *           2: user comparator: native int32 keys compared numerically (negative numbers included)
  *           3: user comparator: reversed byte-wise ordering
  *           4: user comparator: case-insensitive strings; every call spells its key in upper or lower case, so keys that
- *              compare equal differ in their bytes (the stored spelling is that of the first insertion)
+ *              compare equal differ in their bytes and, with a trailing "~~" that the comparator ignores, in their length (the
+ *              stored spelling is that of the first insertion)
  *   flags: t = QTREETBL_THREADSAFE, a/f = allocation failure injection (single / all-from-k) */
 #include "qlibc.h"
 #include "vh.h"
@@ -28,7 +29,7 @@ static size_t mkkey(unsigned char *b, int id) {
               b[0] = (unsigned char) (h >> 8); b[1] = (unsigned char) h; if (id & 1) { b[2] = 0; return 3; } return 2; }
     case 2: { int32_t x = id * 7 - 50; memcpy(b, &x, 4); return 4; }
     case 3: return (size_t) sprintf((char *) b, "r%06d", KMAX - id) + 1;
-    default: return (size_t) sprintf((char *) b, upper ? "KEY%06dX" : "key%06dx", id) + 1;
+    default: return (size_t) sprintf((char *) b, upper == 1 ? "KEY%06dX" : upper == 2 ? "key%06dx~~" : "key%06dx", id) + 1;   /* three spellings, two lengths */
     }
 }
 static int keyid(const void *p, size_t n) {
@@ -40,11 +41,17 @@ static int keyid(const void *p, size_t n) {
     case 1: if ((n == 2 || n == 3) && ((b[0] << 8) | b[1]) >= 0x7f) id = (((b[0] << 8) | b[1]) - 0x7f) * 2 + (n == 3); break;
     case 2: if (n == 4) { int32_t x; memcpy(&x, b, 4); if ((x + 50) % 7 == 0) id = (x + 50) / 7; } break;
     case 3: if (n == 8 && b[0] == 'r' && b[7] == 0) id = KMAX - atoi((const char *) b + 1); break;
-    default: if (n == 11 && (b[0] == 'k' || b[0] == 'K') && b[10] == 0) id = atoi((const char *) b + 3); break;
+    default: if ((n == 11 || n == 13) && (b[0] == 'k' || b[0] == 'K') && b[n - 1] == 0) id = atoi((const char *) b + 3); break;
     }
     if (id < 0) return -1;
     unsigned char t[16]; size_t tn = mkkey(t, id);
-    if (profile == 4) return (tn == n && !strcasecmp((const char *) t, (const char *) b) && (!memcmp(b, "key", 3) || !memcmp(b, "KEY", 3))) ? id : -1;
+    if (profile == 4) {       /* any of the three spellings of that id */
+        char want[3][16]; int hit = 0;
+        snprintf(want[0], 16, "key%06dx", id); snprintf(want[1], 16, "KEY%06dX", id); snprintf(want[2], 16, "key%06dx~~", id);
+        for (int j = 0; j < 3; j++) if (strlen(want[j]) + 1 == n && !memcmp(want[j], b, n)) hit = 1;
+        (void) tn;
+        return hit ? id : -1;
+    }
     return (tn == n && !memcmp(t, b, n)) ? id : -1;
 }
 /* values: 1,2 ordinary (different lengths), 3 empty, 4 with embedded and trailing NUL, 5 a C string */
@@ -71,7 +78,15 @@ static int cmp_int(const void *a, size_t an, const void *b, size_t bn) {
     int32_t x = 0, y = 0; memcpy(&x, a, an < 4 ? an : 4); memcpy(&y, b, bn < 4 ? bn : 4);
     return x < y ? -1 : x > y ? 1 : 0;
 }
-static int cmp_case(const void *a, size_t an, const void *b, size_t bn) { (void) an; (void) bn; cmps++; return strcasecmp(a, b); }
+/* profile 4: letters compare without case and trailing '~' do not count: equal keys may differ in bytes and in length */
+static int cmp_case(const void *a, size_t an, const void *b, size_t bn) {
+    (void) an; (void) bn; cmps++;
+    const char *x = a, *y = b; size_t lx = strlen(x), ly = strlen(y);
+    while (lx && x[lx - 1] == '~') lx--;
+    while (ly && y[ly - 1] == '~') ly--;
+    int c = strncasecmp(x, y, lx < ly ? lx : ly);
+    return c ? c : (lx < ly ? -1 : lx > ly);
+}
 static int cmp_rev(const void *a, size_t an, const void *b, size_t bn) { cmps++; return -qtreetbl_byte_cmp(a, an, b, bn); }
 static int cmp_cnt(const void *a, size_t an, const void *b, size_t bn) { cmps++; return qtreetbl_byte_cmp(a, an, b, bn); }
 
@@ -181,7 +196,7 @@ int main(int argc, char **argv) {
         for (long k = 1;; k++) {
             if (inject && k > 300) inject = 0;      /* give up injecting: finish the operation normally */
             unsigned char kb0[16], vb0[64];
-            upper = (int) (((unsigned long) vh_step * 2654435761UL >> 7) & 1);
+            upper = (int) ((((unsigned long) vh_step * 2654435761UL) >> 7) % 3);
             size_t kn = mkkey(kb0, a), vn = mkval(vb0, bb);
             /* caller data lives in exactly-sized heap buffers that are scribbled and released after the call */
             unsigned char *kb = vh_malloc(kn ? kn : 1), *vb = vh_malloc(vn ? vn : 1);
